@@ -421,7 +421,7 @@ PIPE_QUICK = [("cut_short", "redirect"), ("redirect", "cut_type"), ("scale", "to
 PIPE_ALL = [(a, b) for a in OPS for b in OPS if a != "rotate" and b != "rotate"]
 
 HARNESSES = [
-    H("step", h_step, opts=dict(merge_minmax=True), quick=[dict(op=o, n=k) for o in STEP_OPS for k in ((1, 3) if o not in ("rotate",) else (2,))], thorough=[dict(op=o, n=4) for o in STEP_OPS if o not in ("rotate", "resample", "normalizer")] + [dict(op="rotate", n=3), dict(op="resample", n=3), dict(op="normalizer", n=3)],
+    H("step", h_step, opts=dict(merge_minmax=True), quick=[dict(op=o, n=k) for o in STEP_OPS for k in ((1, 3) if o not in ("rotate",) else (2,))] + [dict(op="to_subtree", n=4), dict(op="cut_type", n=4)], thorough=[dict(op=o, n=4) for o in STEP_OPS if o not in ("rotate", "resample", "normalizer")] + [dict(op="rotate", n=3), dict(op="resample", n=3), dict(op="normalizer", n=3)],
       functions=FUNCTIONS, bounds="each of the 17 operations applied once (and a second time) to every numbering of every tree with n in {1,3} (quick) / 4 (thorough) nodes; arguments: every node id / removal set / callback verdict pattern / order / type, real thresholds, factors, offsets, any angle and unit axis, windows {1,2,3,5}, spacing in [1,2]"),
     H("redirect_unsorted", h_redirect_unsorted, quick=[dict(n=k) for k in (1, 2, 3, 4)], thorough=[dict(n=5)], functions=FUNCTIONS, bounds="n<=4/5, every new root, sort=False"),
     H("cat", h_cat, quick=[dict(n1=1, n2=1), dict(n1=2, n2=2), dict(n1=3, n2=2)], thorough=[dict(n1=3, n2=3)], functions=FUNCTIONS, bounds="pairs up to (3,2) quick / (3,3) thorough, every junction pair, both translate modes, also a tree concatenated onto itself"),
